@@ -457,6 +457,10 @@ type scenario struct {
 	minerSet bool
 	preferQi bool
 	lockByte uint8
+	store        *common.Address // storage-writing contract (six SSTOREs of the call data word per call)
+	storeTx      common.Hash
+	lockupTx     common.Hash
+	storeReady   bool
 }
 
 func (s *scenario) foreignQiEtx(to common.Address, den uint8, idx uint16) *types.Transaction {
@@ -502,7 +506,7 @@ func (s *scenario) inbound(blockNo uint64) types.Transactions {
 	}
 	n := r.Pick(2, 3, 3, 2, 1)
 	for i := 0; i < n; i++ {
-		switch r.Pick(8, 3, 1, 2, 2, 2, 2) {
+		switch r.Pick(8, 3, 1, 2, 2, 4, 1) {
 		case 0: // regular Qi ETX from another zone: unlocked UTXO of any denomination (small ones are trimmable)
 			den := uint8(r.Intn(15))
 			if r.Chance(50) {
@@ -741,7 +745,7 @@ func (s *scenario) poolTxs(n *node, content []entry, nextNo uint64) []*types.Tra
 	}
 	if err == nil {
 		for i := range s.a.quaiAddrs {
-			if !s.funded[i] || !r.Chance(50) {
+			if !s.funded[i] || !r.Chance(75) {
 				continue
 			}
 			ia, _ := s.a.quaiAddrs[i].InternalAndQuaiAddress()
@@ -759,7 +763,36 @@ func (s *scenario) poolTxs(n *node, content []entry, nextNo uint64) []*types.Tra
 			to := s.a.quaiAddrs[(i+1)%len(s.a.quaiAddrs)]
 			gp := new(big.Int).Mul(n.z.Hc.CurrentHeader().BaseFee(), big.NewInt(3))
 			inner := &types.QuaiTx{ChainID: chainID, Nonce: nonce, GasPrice: gp, Gas: 21000, To: &to, Value: big.NewInt(int64(1 + r.Intn(1000000)))}
+			grindCreate := func(code []byte) ([]byte, common.Address) {
+				for salt := 0; ; salt++ {
+					c := append(common.CopyBytes(code), byte(salt), byte(salt>>8), byte(salt>>16))
+					ca := crypto.CreateAddress(s.a.quaiAddrs[i], nonce, c, loc)
+					if _, err := ca.InternalAndQuaiAddress(); err == nil {
+						return c, ca
+					}
+				}
+			}
+			isDeploy := ""
+			if s.spec.Kind != "f5" && s.spec.Kind != "clean" && i == 1 {
+				if s.store == nil {
+					// runtime: for slot 0..5: SSTORE(slot, CALLDATALOAD(0)); STOP  -- several dirty slots of one
+					// account per transaction: stateObject.updateTrie iterates pendingStorage, a Go map
+					runtime := ""
+					for slot := 0; slot < 6; slot++ {
+						runtime += fmt.Sprintf("60003560%02x55", slot)
+					}
+					runtime += "00"
+					initc := common.FromHex(fmt.Sprintf("60%02x600c60003960%02x6000f3", len(runtime)/2, len(runtime)/2) + runtime)
+					code, caddr := grindCreate(initc)
+					inner = &types.QuaiTx{ChainID: chainID, Nonce: nonce, GasPrice: gp, Gas: 2000000, To: nil, Value: big.NewInt(0), Data: code, AccessList: types.AccessList{{Address: caddr}}}
+					s.store = &common.Address{}
+					isDeploy = "store"
+				} else if s.storeReady && r.Chance(85) {
+					inner = &types.QuaiTx{ChainID: chainID, Nonce: nonce, GasPrice: gp, Gas: 400000, To: s.store, Value: big.NewInt(0), Data: r.Bytes(32)}
+				}
+			}
 			if s.spec.Kind == "lockup" && s.contract == nil && i == 0 {
+				isDeploy = "lockup"
 				// deploy a one-byte (STOP) contract so that coinbase lockups have an owner contract with code
 				// init code returning the one-byte runtime code STOP; trailing salt bytes are ground until the
 				// CREATE address lies in this zone's Quai ledger; the address must be in the access list
@@ -782,6 +815,12 @@ func (s *scenario) poolTxs(n *node, content []entry, nextNo uint64) []*types.Tra
 				continue
 			}
 			s.nonce[i] = nonce + 1
+			switch isDeploy {
+			case "store":
+				s.storeTx = tx.Hash()
+			case "lockup":
+				s.lockupTx = tx.Hash()
+			}
 			txs = append(txs, tx)
 		}
 	}
@@ -1088,6 +1127,8 @@ func runChain(spec ChainSpec, a *actors, tmp string) (res chainResult) {
 			case types.QuaiTxType:
 				if tx.To() == nil {
 					rep.Count("tx_quai_create")
+				} else if len(tx.Data()) > 0 {
+					rep.Count("tx_quai_storage_call")
 				} else {
 					rep.Count("tx_quai_transfer")
 				}
@@ -1104,9 +1145,30 @@ func runChain(spec ChainSpec, a *actors, tmp string) (res chainResult) {
 			}
 			fmt.Fprintf(os.Stderr, "chain %d block %d txs %d ops %d trimmed %d content %d size %d rootok %v\n", spec.ID, no, len(block.Transactions()), len(txOps), len(trimmedRec), len(primScan), rawdb.ReadUTXOSetSize(prim.db, block.Hash()), rootok)
 		}
+		if sc.storeReady {
+			rcpts := rawdb.ReadReceipts(prim.db, block.Hash(), no, prim.z.Config)
+			for i, tx := range block.Transactions() {
+				if tx.Type() == types.QuaiTxType && tx.To() != nil && len(tx.Data()) > 0 && i < len(rcpts) {
+					rep.Count(fmt.Sprintf("storage_call_status_%d", rcpts[i].Status))
+				}
+			}
+		}
 		// contract deployed?
-		if sc.contract != nil && !sc.deployed {
+		if (sc.contract != nil && !sc.deployed) || (sc.store != nil && !sc.storeReady) {
 			for _, r := range rawdb.ReadReceipts(prim.db, block.Hash(), no, prim.z.Config) {
+				if r.TxHash == sc.storeTx && r.ContractAddress != (common.Address{}) {
+					if r.Status == types.ReceiptStatusSuccessful {
+						ca := r.ContractAddress
+						sc.store, sc.storeReady = &ca, true
+						rep.Count("storage_contract_deployed")
+					} else {
+						sc.store = nil // try again
+					}
+					continue
+				}
+				if r.TxHash != sc.lockupTx {
+					continue
+				}
 				if verbose && r.Type == types.QuaiTxType {
 					fmt.Fprintf(os.Stderr, "  receipt type %d status %d gas %d contract %s\n", r.Type, r.Status, r.GasUsed, r.ContractAddress.Hex())
 				}
